@@ -127,6 +127,17 @@ def cases(tier):
     for it in corpus.build(tier):
         if it["kind"] == "ok":
             yield {"payload": it["payload"], "must_parse": True, "name": it["name"]}
+    # payloads that are THEMSELVES complete, CRC-valid transport frames (a frame tunnelled inside a
+    # message of the unassigned number 3376 = 0xD30, or handed to the constructor by mistake): the
+    # identity is still the first 12 payload bits and the whole payload is kept
+    for k, it in enumerate(corpus.build(tier)):
+        if it["kind"] == "ok" and (k % 9 == 0 or len(it["payload"]) < 8) and len(it["payload"]) <= 1017:
+            yield {"payload": pinned.frame(it["payload"]), "name": f"framed:{it['name']}"}
+    for inner in (b"", b"\x00", b"\x3e\xd0", b"\xd3\x00\x00", bytes(range(256)) + b"\x01" * 44, b"\xff" * 1011, b"\xff" * 1017):
+        fr = pinned.frame(inner)
+        yield {"payload": fr, "name": f"framed:{len(inner)}B"}
+        if len(fr) <= 1017:
+            yield {"payload": pinned.frame(fr), "name": f"framed-twice:{len(inner)}B"}
     from mc import refmodel as R  # pylint: disable=import-outside-toplevel
 
     for num in pinned.MSM_NUMBERS:  # satellites present, no cell selected
